@@ -118,6 +118,7 @@ class ListObj:
         self.label = label
         self.frozen = False     # being iterated
         self.last = None        # term of the last element when known (set by append, consumed by l[-1] / pop())
+        self._seq = None        # identity of the current sequence value (positions), fresh after every mutation
 
     @property
     def cnt(self):
@@ -127,6 +128,13 @@ class ListObj:
     def cnt(self, v):
         self._cnt = v
         self.last = None
+        self._seq = None
+
+    @property
+    def seq(self):
+        if getattr(self, '_seq', None) is None:
+            self._seq = z3.Int(fresh_name('seq'))
+        return self._seq
 
     @property
     def n(self):
@@ -140,6 +148,7 @@ class ListObj:
         c = ListObj(self._cnt, self._n, self.elem, self.isset, self.label)
         c.frozen = self.frozen
         c.last = self.last
+        c._seq = getattr(self, '_seq', None)
         return c
 
 
@@ -183,6 +192,7 @@ class DictEntryList(ListObj):
         self.label = None
         self.frozen = False
         self.last = None
+        self._seq = None
 
     @property
     def cnt(self):
